@@ -62,6 +62,28 @@ class C04(Machine):
                               "foreign": rng.random() < 0.05, "axioms": rng.random() < 0.3})
         return {"config": {"labels": labs, "rooted": rooted, "addr_seed": rng.getrandbits(32)}, "initial": {"trees": trees}, "steps": steps}
 
+    def simplify(self, plan):
+        import copy
+        for i, sp0 in enumerate(plan["initial"]["trees"]):
+            leaves0 = gen.spec_leaves(sp0)
+            if len(leaves0) <= 4:
+                break
+            drop = leaves0[-1]
+            cand = copy.deepcopy(plan)
+            ok = True
+            for j in range(3):
+                done = False
+                for sp in gen.shrink_specs(cand["initial"]["trees"][j]):
+                    if drop not in gen.spec_leaves(sp) and len(gen.spec_leaves(sp)) == len(leaves0) - 1:
+                        cand["initial"]["trees"][j] = sp
+                        done = True
+                        break
+                ok = ok and done
+            if ok:
+                cand["config"]["labels"] = [l for l in cand["config"]["labels"] if l != drop]
+                yield cand
+            break
+
     # ------------------------------------------------------------------
     def run(self, plan, rec):
         with SimAddresses(plan["config"]["addr_seed"]), warnings.catch_warnings():
